@@ -3,6 +3,7 @@
 from __future__ import annotations
 
 import ast
+import re
 import tokenize
 
 from hypothesis import strategies as st
@@ -123,6 +124,11 @@ def execute(case, ctx):
 
         (ln, col), (end_ln, end_col) = a[3], b[2]
         gap = '\n'.join([sc.lines[ln][col:]] + sc.lines[ln + 1:end_ln] + [sc.lines[end_ln][:end_col]]) if end_ln > ln else sc.lines[ln][col:end_col]
+        if re.sub(r'#[^\n]*', '', gap).replace('\\', '').strip():
+            ctx.count('gap_not_trivia(tokenize end column of a multi-line token after non-ASCII text is unreliable)_skipped')
+
+            continue
+
         line = sc.lines[ln]
         ind = ' ' * (len(line) - len(line.lstrip()) + 4)
         reps = ['', ' ', '  ', '\t', gap + gap, ' \\\n' + ind, '\n' + ind, '  # c\n' + ind]
